@@ -24,25 +24,155 @@ IN = 'contracts.integer'
 PROPS = {}
 NOT_CLAIMED = {('C%02d' % i): 'check not built yet in this session (work in progress; see DESIGN.md section 6)' for i in range(1, 21)}
 
-PROPS['C03'] = dict(
-    level='other',
+ST = 'contracts.streaming'
+D = 'contracts.ber_decoder'
+
+ENC_FRAMING = [(E, 'ber.encoder::AbstractItemEncoder.encodeTag'), (E, 'ber.encoder::AbstractItemEncoder.encodeLength'),
+               (E, 'ber.encoder::AbstractItemEncoder.encode')]
+INTS = [(IN, 'compat.integer::to_bytes[signed]'), (IN, 'compat.integer::to_bytes[unsigned,length]'),
+        (IN, 'compat.integer::from_bytes[signed]'), (IN, 'compat.integer::from_bytes[unsigned]')]
+READS = [(ST, 'codec.streaming::readFromStream[complete]'), (ST, 'codec.streaming::readFromStream[partial]'),
+         (ST, 'codec.streaming::isEndOfStream[BytesIO]'), (ST, 'codec.streaming::isEndOfStream[generic]'),
+         (ST, 'codec.streaming::peekIntoStream[no-peek]')]
+WRAPPER = [(ST, 'codec.streaming::CachingStreamWrapper.%s' % n) for n in
+           ('read', 'peek', 'tell', 'seek[back-to-mark]', 'seek[relative-back]', 'markedPosition.setter')]
+DEC_SIMPLE = [(D, 'ber.decoder::IntegerPayloadDecoder.valueDecoder[complete]'),
+              (D, 'ber.decoder::IntegerPayloadDecoder.valueDecoder[partial]'),
+              (D, 'ber.decoder::NullPayloadDecoder.valueDecoder[complete]'),
+              (D, 'ber.decoder::BooleanPayloadDecoder._createComponent'),
+              (D, 'ber.decoder::RawPayloadDecoder.indefLenValueDecoder')]
+U2 = 'shared universe U2 (quick: ~800 (type, value) pairs; thorough: full leaf product x tag stacks)'
+PAPER_INDUCTION = ('structural induction over the type universe (dynamic dispatch through TAG_MAP/TYPE_MAP and the '
+                   'univ.py object model): premises are the per-function obligations and the dispatch-table '
+                   'obligations; the induction itself is a paper argument')
+NOTE = ('Trusted: pyvc executor, z3/cvc5, CPython builtin axioms (A-BUILTIN), object model (A-OBJ). Functions not under '
+        'contract are reached only by the labelled bounded stand-ins, which are never counted as proved.')
+
+
+def prop(**kw):
+    kw.setdefault('level', 'other')
+    kw.setdefault('level_note', NOTE)
+    kw.setdefault('paper', [PAPER_INDUCTION])
+    return kw
+
+
+PROPS['C01'] = prop(
+    level_text='Framing (identifier/length octets, end-of-octets exactly after an indefinite header), INTEGER octets and '
+               'the INTEGER/BOOLEAN/NULL payload decoders are proved for all inputs against X.690 spec functions; the '
+               'round trip over the type universe composes them on paper; decode(encode(v, mode), T) == v is a labelled '
+               'bounded stand-in over U2 x 8 encoder modes.',
+    contracts=ENC_FRAMING + INTS + DEC_SIMPLE + READS[:1], tables=['dispatch'],
+    standins=[dict(module='standins.codec_checks', checks='rt-ber', bound=U2 + ' x 8 modes (def/indef x chunk 0,1,3,7,1000)')],
+    explanation='contracts on framing + content leaf functions (proved), dispatch tables (complete evaluation), '
+                'round trip on entry points (bounded)')
+
+PROPS['C02'] = prop(
+    level_text='Same premises as C01 with the fixed CER/DER modes; decoder tables of cer/der are proved (by complete '
+               'evaluation) to differ from BER only by stricter codecs, so whenever several decoders accept they run '
+               'the same content decoders; the five (encoder, decoder) pairs are a bounded stand-in over U2.',
+    contracts=ENC_FRAMING + INTS + DEC_SIMPLE, tables=['dispatch', 'decoder-tables'],
+    standins=[dict(module='standins.codec_checks', checks='rt-canon', bound=U2 + ' incl. strings of 999/1000/1001/2001 octets')],
+    explanation='contracts (proved) + finite tables (complete) + five codec pairs (bounded)')
+
+PROPS['C03'] = prop(
     level_text='Contracts on the real identifier/length/framing/integer functions are discharged for all inputs against '
                'X.690 spec functions; whole-encoder byte equality with an independent DER/CER reference is a labelled '
                'bounded stand-in; composition over the type universe is a paper induction.',
-    level_note='Trusted: pyvc executor, z3, CPython builtin axioms; content encoders not yet under contract are covered only '
-               'by the bounded stand-in; see evidence assumptions.',
-    contracts=[(E, 'ber.encoder::AbstractItemEncoder.encodeTag'), (E, 'ber.encoder::AbstractItemEncoder.encodeLength'),
-               (E, 'ber.encoder::AbstractItemEncoder.encode'), (IN, 'compat.integer::to_bytes[signed]')],
-    tables=['dispatch'],
-    standins=[dict(module='standins.codec_checks', checks='der-twin,cer-twin,ber-read',
-                   bound='shared universe U2 (quick: ~800 (type,value) pairs; thorough: full leaf product), '
-                         '8 BER encoder modes')],
-    paper=['structural induction over the type: whole-encoder equality with DER(T, v) follows from the per-function '
-           'contracts (identifier, length, framing, content octets) plus dispatch-table completeness'],
+    contracts=ENC_FRAMING + INTS[:1], tables=['dispatch'],
+    standins=[dict(module='standins.codec_checks', checks='der-twin,cer-twin,ber-read', bound=U2 + ', 8 BER encoder modes')],
     explanation='machine-checked contracts on the real framing and content functions against the X.690 spec '
-                'functions; composition over the type universe is a paper induction; entry points additionally '
-                'checked on a bounded universe against an independent DER/CER reference (labelled bounded)',
-)
+                'functions; entry points additionally checked on a bounded universe against an independent DER/CER '
+                'reference (labelled bounded)')
+
+PROPS['C05'] = prop(
+    level_text='The generator protocol is decided structurally and by contract: every generator-consuming loop in the '
+               'decoders forwards underrun markers and does nothing else on that path (D1, one obligation per site, '
+               'enumerated from the AST), reads are atomic and rewind on short read (D2, readFromStream contract for all '
+               'inputs), the result value is the last item yielded (D5), the caching wrapper refines a seekable stream '
+               '(C11 contracts). Schedule independence then follows by the stutter meta-lemma (paper). All partitions '
+               'of short two-object streams are a bounded stand-in.',
+    contracts=READS + WRAPPER + DEC_SIMPLE, tables=['protocol', 'errors'],
+    standins=[dict(module='standins.stream_checks', checks='schedules',
+                   bound='220 (type, value) pairs, encodings of <= 7 (quick) / 9 (thorough) octets doubled, all '
+                         '2^(n-1) partitions up to 4096 (quick) / 70000, non-seekable source with None polls')],
+    paper=['L-stutter: from D1-D3, D5 and python generator semantics (A-GEN) a suspended decoder continues only from the '
+           'bytes already consumed, so the yielded objects do not depend on the arrival schedule', PAPER_INDUCTION],
+    explanation='protocol obligations D1/D2/D5 + stream contracts (proved), schedule independence by a paper '
+                'meta-lemma, exhaustive partitions of short streams (bounded)')
+
+PROPS['C06'] = prop(
+    level_text='readFromStream is proved to report end-of-stream only when the stream signalled it and otherwise to yield '
+               'underrun markers without consuming input; EndOfStreamError < SubstrateUnderrunError < PyAsn1Error and '
+               '"every explicit raise in the decoders is a library error" are decided on the real class graph / AST; '
+               'every cut of U2 encodings (one-shot and streaming) is a bounded stand-in.',
+    contracts=READS + DEC_SIMPLE[:3], tables=['errors', 'protocol'],
+    standins=[dict(module='standins.codec_checks', checks='truncation', bound=U2 + ' x 4 codecs/modes x every cut (<= 64 octets: all; longer: 30 cuts) x with/without spec'),
+              dict(module='standins.stream_checks', checks='stream-truncation', bound='220 pairs, encodings <= 7/9 octets, every cut, stream closed after 2 polls')],
+    explanation='read classification contracts + class graph (proved/complete); all cut points (bounded)')
+
+PROPS['C07'] = prop(
+    level_text='Encoder side proved: an end-of-octets marker follows exactly an indefinite header (iteration contract of '
+               'AbstractItemEncoder.encode; one recorded finding). Decoder side: reads consume exactly the requested '
+               'octets (readFromStream), end-of-stream test is non-destructive, payload decoders consume exactly '
+               '`length` octets, explicit-tag unwrapping yields its value last. decode(e + t) == (v, t) and stream '
+               'positions after each object are bounded stand-ins.',
+    contracts=ENC_FRAMING + READS + DEC_SIMPLE, tables=['protocol'],
+    standins=[dict(module='standins.codec_checks', checks='tails', bound=U2 + ' x 4 codecs/modes x 5 tails'),
+              dict(module='standins.stream_checks', checks='concat', bound='220 pairs x 3 codecs x 1..3 concatenations')],
+    explanation='framing and exact-consumption contracts (proved); tails and concatenations (bounded)')
+
+PROPS['C09'] = prop(
+    level_text='from_bytes (two\'s complement of any length, incl. non-minimal), BOOLEAN any-non-zero and the INTEGER/NULL '
+               'payload decoders are proved against the spec relation; the remaining BER choice points (length forms, '
+               'segmentation trees, SET order, DEFAULT presence) are exercised by a nondeterministic independent '
+               'reference encoder as a bounded stand-in.',
+    contracts=INTS[2:] + DEC_SIMPLE[:4], tables=['dispatch'],
+    standins=[dict(module='standins.codec_checks', checks='ber-forms', bound=U2 + ' x up to 60 systematically enumerated BER forms per value')],
+    explanation='content decoders against the BER relation (proved); enumerated BER forms (bounded)')
+
+PROPS['C11'] = prop(
+    level='other',
+    level_text='Data structure against abstract view: every CachingStreamWrapper operation preserves the representation '
+               'invariant (cache == raw[dropped:obtained]) and behaves like a seekable stream over the same octets '
+               '(read/peek/tell/seek proved for all states and sizes, DEFAULT_BUFFER_SIZE abstracted to K >= 1); one '
+               'recorded finding (mark renumbering). Substrate kinds and operation histories are bounded stand-ins.',
+    contracts=WRAPPER + READS[:2], tables=[],
+    standins=[dict(module='standins.stream_checks', checks='substrate-kinds,wrapper-histories',
+                   bound='220 pairs + encodings of 8191/8192/8193/24576 octets, deep and wide; 7 substrate kinds; 400 (quick) / 6000 random histories of <= 8 operations')],
+    paper=['the decoders touch a substrate only through read/seek/tell/markedPosition, so results are a function of the '
+           'stream model (frame argument over ber/decoder.py, paper)'],
+    explanation='refinement contracts of the wrapper (proved for all inputs); substrate kinds/histories (bounded)')
+
+PROPS['C13'] = prop(
+    level_text='Identifier octets equal X.690 8.1.2 for every class/format/number (encodeTag, loop invariant over the '
+               'base-128 digits), one header per tag from innermost to outermost with the constructed bit set for wrappers '
+               'and constructed content only (iteration contract of encode). Tag algebra and accept/reject are covered by a '
+               'bounded stand-in until their contracts are built.',
+    contracts=ENC_FRAMING, tables=['dispatch'],
+    standins=[dict(module='standins.tag_checks', checks='tag-stacks', bound='depth 0..3 stacks over 3 classes x 9 numbers x implicit/explicit on 4 base types; single-position perturbations')],
+    explanation='identifier/framing contracts (proved); tag stacks and perturbations (bounded)')
+
+PROPS['C15'] = prop(
+    level='proof',
+    level_text='The statement is about finite tables and two flags: decided completely by evaluating obligations on the '
+               'real TAG_MAP/TYPE_MAP objects of cer.decoder and der.decoder (same codec class by tag and by type for '
+               'every unambiguous type; strict BOOLEAN; primitive-only BIT/OCTET STRING; supportIndefLength False and '
+               'wired in; every nested element goes through the same single-item decoder). Non-canonical rewrites of U2 '
+               'encodings are an additional bounded stand-in.',
+    contracts=[], tables=['decoder-tables'],
+    standins=[dict(module='standins.codec_checks', checks='noncanonical', bound=U2 + ' DER encodings x every element x 3 rewrites x with/without spec')],
+    paper=[], explanation='finite table obligations, complete evaluation')
+
+PROPS['C16'] = prop(
+    level_text='Dispatch tables are complete (every universal tag has a decoder entry); the schemaless container guess '
+               'never returns None (fixed defect, now a stand-in regression); faithful leaves and byte-identical DER '
+               're-encoding are a bounded stand-in on the IMPLICIT-free, ANY-free sub-universe.',
+    contracts=DEC_SIMPLE[:4], tables=['dispatch'],
+    standins=[dict(module='standins.codec_checks', checks='schemaless', bound='IMPLICIT/ANY-free part of U2 x 4 codecs')],
+    explanation='tables (complete) + content decoders (proved) + schemaless round trip (bounded)')
+
+for _p in list(PROPS):
+    NOT_CLAIMED.pop(_p, None)
 
 
 def conc_encode_tag(oid, m):
